@@ -904,9 +904,17 @@ def dceU (cc : Bool) : List US → List Nat → List US × List Nat
     if s.kept (dceU cc r live).2 then (s :: (dceU cc r live).1, s.uses cc ++ (dceU cc r live).2)
     else dceU cc r live
 
-/-- the `While` arm: a loop variable survives only if something inside the loop reads it -/
-def keptLoopVars (cc : Bool) (lvs : List (Nat × Operand × Operand)) (body : List US) : List Nat :=
+/-- the `While` arm (`…:176-193`): variables not mentioned anywhere inside the loop go first; the body
+is then cleaned with the loop values of the remaining variables (and whatever is used after the
+loop) as live names; a variable survives iff it is live at the loop entry after that. -/
+def loopVarsStage1 (cc : Bool) (lvs : List (Nat × Operand × Operand)) (body : List US) : List (Nat × Operand × Operand) :=
   let used := lvs.flatMap (fun lv => lv.2.1.vars ++ lv.2.2.vars) ++ body.flatMap (US.uses cc)
-  (lvs.map (·.1)).filter used.contains
+  lvs.filter fun lv => used.contains lv.1
+
+def loopBodyDce (cc : Bool) (lvs : List (Nat × Operand × Operand)) (body : List US) (after : List Nat) : List US × List Nat :=
+  dceU cc body (after ++ (loopVarsStage1 cc lvs body).flatMap fun lv => lv.2.2.vars)
+
+def keptLoopVars (cc : Bool) (lvs : List (Nat × Operand × Operand)) (body : List US) (after : List Nat) : List Nat :=
+  ((loopVarsStage1 cc lvs body).filter fun lv => (loopBodyDce cc lvs body after).2.contains lv.1).map (·.1)
 
 end SamVerif.Opt
